@@ -156,6 +156,8 @@ func (m *ConnackMessage) Encode(dst []byte) (int, error) {
 
 	if m.sessionPresent {
 		dst[total] = 1
+	} else {
+		dst[total] = 0
 	}
 	total++
 
